@@ -883,7 +883,10 @@ func startKeepalive(session keepaliveSession, interval time.Duration, failureThr
 				}
 				consecutiveFailures++
 				if closing {
-					if consecutiveFailures >= failureThreshold {
+					// A ping that was refused because the connection is already
+					// closing (the owner's Close and this tick fell together)
+					// says nothing about the peer.
+					if consecutiveFailures >= failureThreshold && !errors.Is(err, ErrConnectionClosed) {
 						if s, ok := session.(interface{ getConn() *jsonrpc2.Connection }); ok {
 							s.getConn().Abandon(fmt.Errorf("%w: keepalive: peer is not responding to pings", jsonrpc2.ErrClientClosing))
 						}
